@@ -603,7 +603,12 @@ func tailPanic(s string) string {
 	return s
 }
 
+// drawName: file base names; one in four uses characters that are legal in file names but special to formatters, shells or
+// CSV readers (never "/", a newline or the ", " column separator).
 func drawName(t *rapid.T) string {
+	if rapid.IntRange(0, 3).Draw(t, "exotic_name") == 0 {
+		return rapid.StringMatching(`[a-zA-Z0-9_% .+=@#()!~^&;'\[\]{}样本é\-]{1,12}`).Draw(t, "name")
+	}
 	return rapid.StringMatching(`[a-zA-Z0-9_\-]{1,10}`).Draw(t, "name")
 }
 
